@@ -17,7 +17,7 @@ func genTqCase(r *Rng, c *Ctx, prop string) tqCase {
 	if c.Tier == "thorough" {
 		maxN = 14
 	}
-	tc := tqCase{N: 1 + r.Intn(maxN), MaxRetries: Pick(r, []int{1, 2, 3, 8}), MaxDelay: Pick(r, []int{0, 0, 1, 1, -1}), Upload: r.Chance(35), Workers: 1 + r.Intn(4)}
+	tc := tqCase{N: 1 + r.Intn(maxN), MaxRetries: Pick(r, []int{1, 2, 3, 8}), MaxDelay: Pick(r, []int{0, 0, 1, 1, -1}), Upload: r.Chance(35), Workers: Pick(r, []int{1, 1, 2, 3, 4, 8})}
 	tc.BatchSize = Pick(r, []int{1, 2, tc.N, tc.N + 1, 100, 3})
 	if tc.BatchSize < 1 {
 		tc.BatchSize = 1
@@ -40,6 +40,7 @@ func genTqCase(r *Rng, c *Ctx, prop string) tqCase {
 			tc.Sizes = append(tc.Sizes, 1+r.Intn(9))
 		}
 	}
+	tc.ExpStyle, tc.OkStyle = r.Intn(5), r.Intn(4)
 	failing := prop == "C15" || r.Chance(70)
 	for i := 0; i < tc.N; i++ {
 		var sc []string
@@ -156,7 +157,7 @@ func genTqCase(r *Rng, c *Ctx, prop string) tqCase {
 	for k := 0; k < nreq; k++ {
 		call := "200"
 		if failing && r.Chance(9) && len(tc.LateAdds) == 0 {
-			call = Pick(r, []string{"429", "429:1", "500", "404", "429"})
+			call = Pick(r, []string{"429", "429:1", "500", "404", "429", "429:date", "429:garbage"})
 		}
 		tc.Calls = append(tc.Calls, call)
 		tc.Unknown = append(tc.Unknown, failing && r.Chance(4))
@@ -242,9 +243,17 @@ func tqOracle(tc tqCase, o *tqObs) (c06, c15 []string) {
 				c15 = append(c15, fmt.Sprintf("an object deferred with Retry-After was requested again %d ms early", nb-b.At))
 			}
 			if p := strings.SplitN(b.Call, ":", 2); len(p) == 2 {
-				var secs int64
-				fmt.Sscan(p[1], &secs)
-				notBefore[oid] = b.At + secs*1000 - 60
+				switch p[1] {
+				case "garbage": // no usable delay: nothing to wait for beyond the ordinary back-off
+				case "date": // the server recorded the instant its HTTP-date names
+					if nb, ok := o.NotBefore[oid]; ok && nb > b.At && nb < b.At+2500 {
+						notBefore[oid] = nb - 10
+					}
+				default:
+					var secs int64
+					fmt.Sscan(p[1], &secs)
+					notBefore[oid] = b.At + secs*1000 - 60
+				}
 			}
 			if b.Call == "200" {
 				lastEntry[oid] = tc.entry(tqOidIndex(oid), k)
